@@ -101,6 +101,17 @@ func (t *c13Thread) run() {
 			err := gtree.OutputFromMarkdown(&buf, strings.NewReader(s.Doc), t.shared...)
 			sp := model.ParseSpec(s.Doc)
 			obs(fmt.Sprintf("%q %v", sortBlocks(buf.String()), err), fmt.Sprintf("%q <nil>", sortBlocks(model.Render(model.Merge(sp.Forest), model.DefaultFmt))))
+		case "SD":
+			// a massive dry run of this thread's own document (the other thread does the same with another document)
+			var buf bytes.Buffer
+			err := gtree.OutputFromMarkdown(&buf, strings.NewReader(s.Doc), gtree.WithMassive(nil), gtree.WithDryRun(), gtree.WithFileExtensions([]string{"b"}))
+			sp := model.ParseSpec(s.Doc)
+			want := ""
+			for _, r := range model.Merge(sp.Forest) {
+				d, f := model.Counts(r, []string{"b"})
+				want += model.RenderRoot(r, model.DefaultFmt) + fmt.Sprintf("\n%d directories, %d files\n", d, f)
+			}
+			obs(fmt.Sprintf("%q %v", sortDryBlocks(model.NormSummary(buf.String())), err), fmt.Sprintf("%q <nil>", sortDryBlocks(model.NormSummary(want))))
 		case "R":
 			var buf bytes.Buffer
 			err := gtree.OutputFromRoot(&buf, real[0], t.shared...)
@@ -142,6 +153,24 @@ func (t *c13Thread) run() {
 			obs(fmt.Sprintf("%q %v", rows, err), fmt.Sprintf("%q <nil>", wr))
 		}
 	}
+}
+
+// sortDryBlocks: a (normalised) dry-run report as a sorted list of per-root blocks (a block ends with its "<d,f>" line).
+func sortDryBlocks(rep string) string {
+	var blocks []string
+	cur := ""
+	for _, l := range strings.SplitAfter(rep, "\n") {
+		cur += l
+		if strings.HasPrefix(l, "<") {
+			blocks = append(blocks, cur)
+			cur = ""
+		}
+	}
+	if cur != "" {
+		blocks = append(blocks, cur)
+	}
+	sort.Strings(blocks)
+	return strings.Join(blocks, "")
 }
 
 // sortBlocks: the text output as a sorted list of per-root blocks.
@@ -282,6 +311,20 @@ func init() {
 					},
 				})
 			}
+		}
+		// two threads, each with a massive dry run of its own document (several roots, files and directories)
+		for i, sc := range [][2][]tstep{
+			{{M("SD", "- x\n  - b\n  - c\n- y\n  - b\n")}, {M("SD", "- p\n  - q\n    - b\n- r\n")}},
+			{{M("SD", "- x\n  - b\n")}, {M("SD", "- p\n  - q\n  - b\n  - b2\n")}},
+		} {
+			sc := sc
+			name := fmt.Sprintf("c13/massive-dry-runs/%d", i)
+			out = append(out, &Scenario{
+				Name: name, Prop: "C13", Bound: 1, Workers: w1, Policies: []int{0, 1, 2}, DivergenceIsViolation: "C13|state-survives-between-independent-calls",
+				New: func() Exec {
+					return &c13Exec{a: &c13Thread{script: sc[0]}, b: &c13Thread{script: sc[1]}, name: name}
+				},
+			})
 		}
 		// two threads that make their own trees (different root names) below the same, not yet existing, directory
 		for _, sc := range [][2][]tstep{
